@@ -86,6 +86,49 @@ Theorem required_member_not_omitted : forall S xstq d,
 Proof. exact required_member_not_omitted_l. Qed.
 Print Assumptions required_member_not_omitted.
 
+(* 2d. KNOWN DEFECT C01:toplevel-param-in-optional-container-sent-empty.  The full
+   statement "doc_wrapped_body = ref_doc_wrapped for every argument list" is
+   FALSE of the unchanged code: Binding.mkparam gives a top-level parameter no
+   ancestry, so a parameter inside an optional container of the wrapper type
+   that is left None is written as an empty element where the reference omits
+   it.  doc_wrapped_conforms above is the guarded form; the guard
+   (param_conforming) rejects a None argument exactly when it is of that class. *)
+Theorem toplevel_optional_param_refuted : exists S xstq wrapper args b1 b2,
+  args_conforming S wrapper args = false /\
+  has_toplevel_quirk S wrapper args = true /\
+  ref_doc_wrapped S xstq wrapper args = Some b1 /\
+  doc_wrapped_body S xstq wrapper args = MOk b2 /\
+  xnode_eqb b1 b2 = false /\
+  ref_doc_wrapped_q S xstq wrapper args = Some b2.
+Proof.
+  exists [ mkC 10 1 None [PC KSeq false [PE (mkE 20 1 true TBuiltin false false false None);
+                                          PC KSeq true [PE (mkE 21 1 true TBuiltin false false false None);
+                                                        PE (mkE 22 1 true TBuiltin false false true None)];
+                                          PE (mkE 24 1 true TBuiltin false false false None)]] [] ]%N,
+         true, (mkE 40 1 true (TNamed 1 10) false false false None)%N,
+         [VText 50; VNone; VNone; VText 51]%N.
+  eexists. eexists. vm_compute. repeat split.
+Qed.
+Print Assumptions toplevel_optional_param_refuted.
+
+Theorem guard_excludes_exactly_toplevel_quirk : forall S d anc ch,
+  (toplevel_quirk (FE d anc ch) VNone = true <-> param_conforming S (FE d anc ch) VNone = false) /\
+  (forall v, toplevel_quirk (FE d anc ch) v = true -> param_conforming S (FE d anc ch) v = false).
+Proof.
+  intros S d anc ch. split; [split|].
+  - apply toplevel_quirk_outside_guard_l.
+  - apply none_outside_guard_is_quirk_l.
+  - intros v. apply toplevel_quirk_outside_guard_l.
+Qed.
+Print Assumptions guard_excludes_exactly_toplevel_quirk.
+
+Theorem toplevel_quirk_differs : forall S xstq d,
+  e_opt d = false ->
+  ref_param S xstq (FE d true false) VNone = Some [] /\
+  exists n, marshal_param S xstq (FE d true false) VNone = MOk [n].
+Proof. exact toplevel_quirk_differs_l. Qed.
+Print Assumptions toplevel_quirk_differs.
+
 (* 3. shape: children in schema order (inherited members first), each declared
    name repeated once per list item; attributes on their owner; xsi:type *)
 Theorem children_in_schema_order : forall S xstq d anc ty fs rt,
